@@ -7,6 +7,7 @@ extension point, per-invocation state through a wrapping scheduler).
 """
 from __future__ import annotations
 
+from mc.core import guard
 import copy
 import itertools
 import warnings
@@ -426,6 +427,7 @@ def run_sim(scn, **kw):
         try:
             sim.run()
         except Exception as exc:  # noqa
+            guard(exc)
             tr.error = exc
     tr.warnings = [w for w in wlog if "pkg_resources" not in str(w.message)]
     return tr
